@@ -235,19 +235,31 @@ fn expected_identity(c: u16) -> Exp {
     }
 }
 
-const MODES: [&str; 4] = ["defsrc-self", "transparent", "use-defsrc", "unmapped-processed"];
+const MODES: [&str; 6] = ["defsrc-self", "transparent", "use-defsrc", "unmapped-processed", "held-layer-transparent", "held-layer-unmapped"];
+
+fn helper_key(c: u16) -> &'static str {
+    if c == 30 {
+        "b"
+    } else {
+        "a"
+    }
+}
 
 fn identity_config(c: u16, mode: usize) -> String {
     let n = format!("zz{c}");
+    let h = helper_key(c);
     match mode {
         0 => format!("(deflocalkeys-linux {n} {c})\n(defcfg process-unmapped-keys no)\n(defsrc {n})\n(deflayer l {n})\n"),
         1 => format!("(deflocalkeys-linux {n} {c})\n(defcfg process-unmapped-keys no)\n(defsrc {n})\n(deflayer l _)\n"),
         2 => format!("(deflocalkeys-linux {n} {c})\n(defcfg process-unmapped-keys no)\n(defsrc {n})\n(deflayer l use-defsrc)\n"),
-        _ => {
-            let other = if c == 30 { "b" } else { "a" };
-            format!("(defcfg process-unmapped-keys yes)\n(defsrc {other})\n(deflayer l {other})\n")
-        }
+        3 => format!("(defcfg process-unmapped-keys yes)\n(defsrc {h})\n(deflayer l {h})\n"),
+        4 => format!("(deflocalkeys-linux {n} {c})\n(defcfg process-unmapped-keys no)\n(defsrc {n} {h})\n(deflayer l0 {n} (layer-while-held l1))\n(deflayer l1 _ _)\n"),
+        _ => format!("(defcfg process-unmapped-keys yes)\n(defsrc {h})\n(deflayer l0 (layer-while-held l1))\n(deflayer l1 _)\n"),
     }
+}
+
+fn is_mouse_code(c: u16) -> bool {
+    (272..=276).contains(&c) || (745..=748).contains(&c)
 }
 
 fn run_stepper(out: &mut CaseOut, idx: u64) {
@@ -267,7 +279,16 @@ fn run_stepper(out: &mut CaseOut, idx: u64) {
         }
         for (mi, mode) in MODES.iter().enumerate() {
             let cfg = identity_config(c, mi);
-            let h = vec![Ev::P(c), Ev::T(3), Ev::R(c), Ev::T(3)];
+            // press, two OS auto-repeats while held, release; modes 4/5 with a layer-while-held active
+            let mut h = vec![];
+            let hk = crate::core::sim::osc(helper_key(c));
+            if mi >= 4 {
+                h.extend([Ev::P(hk), Ev::T(2)]);
+            }
+            h.extend([Ev::P(c), Ev::T(3), Ev::Rep(c), Ev::T(1), Ev::Rep(c), Ev::T(2), Ev::R(c), Ev::T(3)]);
+            if mi >= 4 {
+                h.extend([Ev::R(hk), Ev::T(3)]);
+            }
             let mut sim = match Sim::new(&cfg) {
                 Ok(s) => s,
                 Err(e) => {
@@ -281,18 +302,39 @@ fn run_stepper(out: &mut CaseOut, idx: u64) {
             };
             sim.run(&h);
             out.inc("stepper_runs");
-            let got: Vec<(OutKind, String)> = sim.normalized().into_iter().map(|o| (o.kind, o.name)).collect();
+            out.count("stepper_repeat_inputs", 2);
+            let all: Vec<(OutKind, String)> = sim.normalized().into_iter().map(|o| (o.kind, o.name)).collect();
+            let n_rep = all.iter().filter(|x| x.0 == OutKind::Repeat).count() as u64;
+            out.count("stepper_repeat_outputs", n_rep);
+            // the mouse pseudo keys: what a repeat does is outside the statement; counted, not judged
+            let got: Vec<(OutKind, String)> = if is_mouse_code(c) {
+                out.count("stepper_mouse_code_repeat_outputs_not_judged", n_rep);
+                all.iter().filter(|x| x.0 != OutKind::Repeat).cloned().collect()
+            } else {
+                all.clone()
+            };
             let exp: Vec<(OutKind, String)> = match &want {
                 Exp::Nothing => vec![],
-                Exp::Key(n) => vec![(OutKind::Down, n.clone()), (OutKind::Up, n.clone())],
+                Exp::Key(n) => vec![(OutKind::Down, n.clone()), (OutKind::Repeat, n.clone()), (OutKind::Repeat, n.clone()), (OutKind::Up, n.clone())],
                 Exp::Btn(b) => vec![(OutKind::BtnDown, b.to_string()), (OutKind::BtnUp, b.to_string())],
                 Exp::Scroll(s) => vec![(OutKind::Scroll, s.to_string())],
             };
             if got != exp {
-                let class = match (&want, got.is_empty()) {
-                    (Exp::Nothing, _) => "reserved-code-reached-os",
-                    (_, true) => "nothing-emitted",
-                    _ => "different-code",
+                let no_rep = |v: &Vec<(OutKind, String)>| -> Vec<(OutKind, String)> { v.iter().filter(|x| x.0 != OutKind::Repeat).cloned().collect() };
+                let class = if no_rep(&got) == no_rep(&exp) {
+                    // press/release are right, the forwarded repeats are not
+                    match &want {
+                        Exp::Nothing => "reserved-code-reached-os-as-repeat",
+                        _ if n_rep == 0 => "repeat-not-forwarded",
+                        _ if n_rep != 2 => "repeat-count",
+                        _ => "repeat-of-different-code",
+                    }
+                } else {
+                    match (&want, no_rep(&got).is_empty()) {
+                        (Exp::Nothing, _) => "reserved-code-reached-os",
+                        (_, true) => "nothing-emitted",
+                        _ => "different-code",
+                    }
                 };
                 out.violate(
                     format!("C11:stepper:{class}:{mode}"),
@@ -809,7 +851,7 @@ impl Check for C11Check {
         if idx < a {
             run_stepper(&mut out, idx);
             if idx == 3 {
-                out.sample = Some(json!({"part": "stepper", "config": identity_config(30, 0), "history": "d:A t:3 u:A t:3", "expected": "↓A ↑A", "modes": MODES}));
+                out.sample = Some(json!({"part": "stepper", "config": identity_config(30, 0), "history": "d:A t:3 r:A t:1 r:A t:2 u:A t:3", "expected": "↓A ⟳A ⟳A ↑A", "modes": MODES}));
             }
         } else if idx < a + b {
             run_names(&mut out, idx - a);
@@ -824,7 +866,7 @@ impl Check for C11Check {
         out
     }
     fn rule(&self) -> String {
-        "Exhaustive and seed-independent: (1) every code 0..=766 that OsCode::from_u16 knows is pressed and released in a real Kanata in four configurations (named via deflocalkeys-linux and mapped to itself in defsrc/deflayer; `_`; `use-defsrc`; not in defsrc with process-unmapped-keys yes) and the OS stream must be press c / release c with the pinned KeyCode name of value c (nothing for 0 and 0x2a4..=0x2ad, mouse-button events for 272..=276, one scroll event for 745..=748); (2) every string literal of str_to_oscode and of its default-mapping table, extracted at run time from the current parser/src/keys/mod.rs, must denote its pinned code through str_to_oscode, in defsrc, as a layer action, as a deflayermap input, as fork trigger, as switch key / key-history / input item (each one-case switch evaluated for all 749 codes), in unmod, and on both sides of defoverrides; (3) for every code: from_u16/as_u16 round trip, u16::from(osc) == KeyCode::from(osc) as u16, reverse conversion, Debug names of both sides equal to pinned tables (OsCode names cross-checked with the kernel's input-event-codes.h), plus the enum declarations parsed from the current sources: same discriminant sets, no duplicate, every (variant, value) as pinned. Random: (4) configurations with random defsrc subsets, deflayermap inputs (also overlapping defsrc / excepted keys, with _ / __ / ___), process-unmapped-keys no | yes | (all-except ...), optional deflocalkeys; Cfg.mapped_keys must equal the set computed from that description. Non-trivial = accepted configuration / code / name; distinct = code, name, mapped-set class.".into()
+        "Exhaustive and seed-independent: (1) every code 0..=766 that OsCode::from_u16 knows is pressed, auto-repeated twice by the OS while held (KeyValue::Repeat), and released in a real Kanata in six configurations (named via deflocalkeys-linux and mapped to itself in defsrc/deflayer; `_`; `use-defsrc`; not in defsrc with process-unmapped-keys yes; the transparent and the unmapped variant again with a layer-while-held active whose layer is transparent) and the OS stream must be press c / repeat c / repeat c / release c with the pinned KeyCode name of value c (nothing at all, also no repeat, for 0 and 0x2a4..=0x2ad; mouse-button events for 272..=276 and one scroll event for 745..=748, where repeat outputs are counted but not judged); (2) every string literal of str_to_oscode and of its default-mapping table, extracted at run time from the current parser/src/keys/mod.rs, must denote its pinned code through str_to_oscode, in defsrc, as a layer action, as a deflayermap input, as fork trigger, as switch key / key-history / input item (each one-case switch evaluated for all 749 codes), in unmod, and on both sides of defoverrides; (3) for every code: from_u16/as_u16 round trip, u16::from(osc) == KeyCode::from(osc) as u16, reverse conversion, Debug names of both sides equal to pinned tables (OsCode names cross-checked with the kernel's input-event-codes.h), plus the enum declarations parsed from the current sources: same discriminant sets, no duplicate, every (variant, value) as pinned. Random: (4) configurations with random defsrc subsets, deflayermap inputs (also overlapping defsrc / excepted keys, with _ / __ / ___), process-unmapped-keys no | yes | (all-except ...), optional deflocalkeys; Cfg.mapped_keys must equal the set computed from that description. Non-trivial = accepted configuration / code / name; distinct = code, name, mapped-set class.".into()
     }
     fn assumptions(&self) -> Vec<String> {
         vec![
@@ -838,7 +880,9 @@ impl Check for C11Check {
     fn floors(&self, _ctx: &Ctx) -> Vec<(&'static str, u64)> {
         vec![
             ("stepper_codes", 749),
-            ("stepper_runs", 2_996),
+            ("stepper_runs", 4_494),
+            ("stepper_repeat_inputs", 8_988),
+            ("stepper_repeat_outputs", 8_700),
             ("stepper_expected_identity", 729),
             ("names", 500),
             ("names_with_pinned_code", 500),
